@@ -30,6 +30,7 @@ TEXTS = {
     # texts that end inside a block comment (whatever a fresh constructor does with them is the model)
     "open_comment_after": A + " /* never closed",
     "open_comment_inside": 'def exp { splitters: uid /* never closed  return "O1" weighted 1 }',
+    "named_map": 'def map { splitters: uid return "M1" weighted 1, "M2" weighted 1 }',  # an experiment named like a helper of the generated code
     "bad_empty": "",
     "bad_two_defs": A + "\n" + 'def other { splitters: org return "X" weighted 1 }',
 }
@@ -87,9 +88,12 @@ def _long_work(units):
         if rounds == "bulk":
             # many distinct units on ONE evaluator, then a recompile to other salt / weights / labels, then the same
             # units again (result caches that survive a recompile); period = number of units
-            n = period
-            ev = impl.ExperimentEvaluator(long_text(0))
-            a1 = asts.setdefault(1, rp.parse(long_text(1).replace('"L"', '"M"')))
+            n = abs(period)
+            unsalted = period < 0  # negative size = the same history on experiments WITHOUT a salt (the empty key exists there)
+            lt = (lambda i: long_text(i).replace('salt: "L" ', "")) if unsalted else long_text
+            ev = impl.ExperimentEvaluator(lt(0))
+            a1 = rp.parse(lt(1).replace('"L"', '"M"'))
+            asts[0] = rp.parse(lt(0))
             special = ["", " ", "0", 0, None, False]  # falsy / empty keys first, then n distinct units, then again
             a0 = asts.setdefault(0, rp.parse(long_text(0)))
             for u in special:
@@ -106,7 +110,7 @@ def _long_work(units):
                                         "why": f"after {n} other distinct units were evaluated, unit {u!r} gets {got!r}: {why}"})  # fmt: skip
                     break
             with quiet():
-                ev.recompile(long_text(1).replace('"L"', '"M"'))
+                ev.recompile(lt(1).replace('"L"', '"M"'))
             bad = 0
             for u in list(range(n))[::-1] + list(range(n)):  # most recently served units first
                 got = impl.call(ev, {"uid": u})
@@ -118,7 +122,8 @@ def _long_work(units):
                         out["cov"]["violating_cases"] = out["cov"].get("violating_cases", 0) + 1
                         out["viol"].append({"kind": "life:long", "period": n, "steps": "bulk", "evaluators": 1, "text_index": 1,
                                             "why": f"after {n} distinct units were evaluated and the evaluator was recompiled, unit {u} still gets {got!r}: {why}"})  # fmt: skip
-            out["outcomes"].append(f"bulk:{n}:{bad == 0}")
+            out["outcomes"].append(f"bulk:{period}:{bad == 0}")
+            asts.pop(0, None)
             continue
         evs = [impl.ExperimentEvaluator(long_text(1000 + k)) for k in range(nev)]
         steps = 0
@@ -178,6 +183,13 @@ def _pairs_work(units):
     return out
 
 
+def impl_free_valid(text):
+    """the `current` text of a pair must be grammatical (decided by the reference, not by the implementation)"""
+    from ..ref import parse as rp
+
+    return rp.classify(text)[0] == "accept"
+
+
 def collision_pairs(res):
     import json
 
@@ -194,6 +206,16 @@ def collision_pairs(res):
         if fp(cur.encode()) != fp(other.encode()) or cur == other:
             raise AssertionError(f"stale collision pair {name}")
         units.append((name, cur, other))
+    # texts that a NORMALISING change detector / parse cache would confuse: they differ only inside a comment-looking
+    # region of a string literal, only in blanks / exotic line-boundary characters inside a literal, only in letter case
+    T = 'def exp {{ splitters: uid return {0} weighted 1, "z" weighted 1 }}'
+    twins = [('"http://old.example/a"', '"http://new.example/b"'), ('"img/*.png"', '"img/*.jpg"'), ('"x//y"', '"x//z"'), ('"p q"', '"p  q"'), ('"p\x0cq"', '"p\x0c q"'),
+             ('"p\rq"', '"p\r q"'), ('"p\u2028q"', '"p\x85q"'), ('"Pq"', '"pq"'), ('"q "', '"q"'), ("'s'", '"s"'), ('"a\tb"', '"a b"'), ('"é"', '"e\u0301"'),
+             ('"1"', "1"), ("1", "1.0"), ('"http://old.example/a"', '"http://old.example/a'), ('"x//y"', '"x//y'), ('"p\x0cq"', '"p\x0cq')]
+    for a, b in twins:
+        units.append((f"twin:{a}|{b}", T.format(a), T.format(b)))
+        units.append((f"twin:{b}|{a}", T.format(b), T.format(a)))
+    units = [u for u in units if impl_free_valid(u[1])]
     for w in pmap(_pairs_work, units, chunk=4, inline_ok=False):
         res.merge_worker(w)
     res.set("fingerprint_collision_pairs", len(units))
@@ -209,7 +231,7 @@ def long_histories(res, tier):
 
     periods = [1, 2, 3, 5, 8, 9, 15, 16, 17, 31, 32, 33, 63, 64, 65, 100, 127, 128, 129, 130] + ([255, 256, 257, 300, 511, 512, 513] if tier == "thorough" else [])
     units = [(p, 3, n) for p in periods for n in (1, 2)]
-    units += [(n, "bulk", 1) for n in ([10, 300, 5000, 10000, 70000] + ([140000, 300000] if tier == "thorough" else []))]
+    units += [(n, "bulk", 1) for n in ([10, 300, 5000, 10000, 70000, -300, -70000] + ([140000, 300000, -140000] if tier == "thorough" else []))]
     for w in pmap(_long_work, units, chunk=1, inline_ok=False):
         res.merge_worker(w)
     res.set("long_history_periods", periods)
